@@ -47,8 +47,6 @@ def cases(tier, seed):
                         p_file=0.0, end_shape=gen.pick(rng, ["after", "mid", "after", "long"]),
                         harvest_early=0.1, p_co2=0.7, year_range=(1985, 2032),
                         regimes=(None if thermal else ["temperate", "cold", "warm", "humid", "arid", "monsoon"]))
-        if sp.get("gw") and sp["gw"]["method"] == "Variable":
-            sp["gw"]["method"] = "Constant"
         if i % 9 == 4 and not thermal:
             # dated inputs that precede the window (a multi-year schedule re-used for a later start)
             # and a window that ends inside a season: anything booked relative to the end would show
@@ -62,6 +60,14 @@ def cases(tier, seed):
             sp2["irr"]["kw"].pop("MaxIrrSeason", None)
             sp2["irr"]["kw"].pop("MaxIrr", None)
             sp = sp2
+        if i % 9 == 7:
+            # a water-table record that goes on after the end date: its later part is configuration,
+            # not something the end date may switch on or off
+            e0, s0 = S.d(sp["end"]), S.d(sp["start"])
+            v0 = float(gen.pick(rng, [0.8, 1.2, 1.8]))
+            sp["gw"] = {"method": "Variable",
+                        "dates": [sp["start"], gen.fmt(s0 + dt.timedelta(days=60)), gen.fmt(e0 + dt.timedelta(days=int(gen.pick(rng, [20, 100, 300]))))],
+                        "values": [v0, round(v0 + 0.3, 2), round(v0 + float(gen.pick(rng, [-0.5, 0.9])), 2)]}
         if i % 6 == 3:
             # "constant at the level of the first simulated year": nothing later may enter that level
             sp["co2"] = {"constant_auto": True}
